@@ -159,8 +159,8 @@ def main(argv: List[str]) -> None:
 
     corpus = out + ".corpus"
     os.makedirs(corpus, exist_ok=True)
-    args = [sys.argv[0], corpus, f"-seed={seed}", "-runs=2000000000", "-max_len=64", "-timeout=0", "-rss_limit_mb=4096",
-            "-print_final_stats=0", "-verbosity=0", "-close_fd_mask=0"]
+    args = [sys.argv[0], corpus, f"-seed={seed}", "-runs=2000000000", "-max_len=64", "-timeout=3600", "-rss_limit_mb=4096",
+            "-print_final_stats=0", "-verbosity=0", "-close_fd_mask=0", f"-artifact_prefix={os.path.dirname(os.path.abspath(out))}/"]
     atheris.Setup(args, one)
     atheris.Fuzz()
 
